@@ -717,6 +717,22 @@ Proof.
       rewrite firstn_app, firstn_all, Nat.sub_diag. cbn [firstn]. rewrite app_nil_r. reflexivity. }
 Qed.
 
+Lemma key_spec : forall (t : tree) c, wf t c ->
+  exists x, key zero t c = Ok x /\
+            match abs t c with Some a => nth_error (inorder t) (ix a) = Some x | None => x = zero end.
+Proof.
+  intros t c Hwf. destruct c as [| |p].
+  - exists zero. split; reflexivity.
+  - exists zero. split; reflexivity.
+  - cbn [wf] in Hwf. destruct (subtree t p) as [|l x r] eqn:E; try discriminate.
+    exists x. split; [apply (key_eq zero t p l x r E)|].
+    cbn [abs ix]. unfold posn. rewrite E. cbn [child]. rewrite (zipper p t), E. cbn [inorder].
+    rewrite <- pre_length. unfold cnt. rewrite <- app_assoc. apply nth_error_mid.
+Qed.
+
+Lemma valid_abs : forall (t : tree) c, valid c = match abs t c with Some _ => true | None => false end.
+Proof. intros t [| |p]; [reflexivity|reflexivity|apply valid_at]. Qed.
+
 (* ------------------------------------------------------------------ invalid and nil cursors, Clone *)
 
 Theorem invalid_identity : forall (t : tree) c m, valid c = false ->
